@@ -27,7 +27,7 @@ CONSTANTS
   TLow = 1
   THigh = 3
   Faults = {"InvalidModel"}
-  NaNFaults = {"NaNAll"}
+  NaNFaults = {}
   NaNBins <- MCNaNBins
   AllNaN = "nan"
   Caught = {"InvalidModel", "InvalidChemistry", "InvalidTemperature"}
